@@ -7,10 +7,18 @@ package harness
 // MsgWithdraw / MsgTransfer (forced), exchange MsgMarketWithdraw, quarantine accept,
 // HoldKeeper.AddHold / ReleaseHold, the SpendableBalances queries and the hold invariant, on
 // base / delayed- and continuous-vesting / module / marker / market accounts carrying holds,
-// with amounts around balance−hold and balance−hold−unvested.
+// with amounts around balance−hold and balance−hold−unvested.  The user accounts of a history get
+// generated ADDRESSES (length 1..255, 0xff / 0x00 tails and heads, all-0xff, a longer address
+// extending another one, neighbours differing in the last byte); the holds of every account are
+// read through every lookup the keeper offers (per-account listing, point lookup, all-accounts
+// listing, the bank-facing locked-coins getter).  The exchange's multi-step messages are driven
+// with holds on both parties: payments (create with a target amount / accept / reject /
+// cancel), orders (ask / bid / cancel / FillBids / FillAsks / MarketSettle), commitments
+// (commit / MarketReleaseCommitments / MarketCommitmentSettle).
 
 import (
 	"context"
+	"encoding/hex"
 	"errors"
 	"fmt"
 	"sort"
@@ -184,10 +192,78 @@ func lockSetup(t *testing.T) *lockEnv {
 	return lockE
 }
 
+// lockUserNames are the accounts whose address a history may choose (`acct X kind addr=<hex>`).
+var lockUserNames = []string{"A", "B", "Q", "V", "C"}
+
 func (e *lockEnv) newHistory() {
 	e.ctx, _ = e.base.CacheContext()
 	e.accts = nil
 	e.kind = map[string]string{}
+	for _, n := range lockUserNames {
+		e.addr[n] = lockAddr(n)
+	}
+}
+
+func lockIsUser(n string) bool {
+	for _, u := range lockUserNames {
+		if u == n {
+			return true
+		}
+	}
+	return false
+}
+
+// holdViews reads the funds on hold of one account through every lookup of the hold keeper:
+// the per-account listing (what the bank module's locked-coins getter iterates), the getter
+// itself, the per-denom point lookup and the all-accounts listing.
+func (e *lockEnv) holdViews(ad sdk.AccAddress, denoms []string, all map[string]sdk.Coins) (views [4]string, max sdk.Coins, ok bool) {
+	k := e.app.HoldKeeper
+	v0, err := k.GetHoldCoins(e.ctx, ad)
+	if err != nil {
+		return views, nil, false
+	}
+	v1 := k.GetLockedCoins(e.ctx, ad)
+	seen := map[string]bool{}
+	var ds []string
+	for _, cs := range []sdk.Coins{v0, v1, all[string(ad)]} {
+		for _, c := range cs {
+			denoms = append(denoms, c.Denom)
+		}
+	}
+	for _, d := range denoms {
+		if !seen[d] {
+			seen[d] = true
+			ds = append(ds, d)
+		}
+	}
+	sort.Strings(ds)
+	var v2 sdk.Coins
+	for _, d := range ds {
+		c, err := k.GetHoldCoin(e.ctx, ad, d)
+		if err != nil {
+			return views, nil, false
+		}
+		if !c.Amount.IsZero() {
+			v2 = append(v2, c)
+		}
+	}
+	v3 := all[string(ad)]
+	vs := []sdk.Coins{v0, v1, v2, v3}
+	for i, v := range vs {
+		views[i] = lockCoinsStr(v)
+	}
+	for _, d := range ds {
+		m := sdkmath.ZeroInt()
+		for _, v := range vs {
+			if x := v.AmountOf(d); x.GT(m) {
+				m = x
+			}
+		}
+		if m.IsPositive() {
+			max = append(max, sdk.Coin{Denom: d, Amount: m})
+		}
+	}
+	return views, max, true
 }
 
 func lockClass(err error) string {
@@ -301,17 +377,32 @@ func (e *lockEnv) vacc(ctx sdk.Context, n string) vestexported.VestingAccount {
 
 func (e *lockEnv) dump() string {
 	var parts []string
+	all := map[string]sdk.Coins{}
+	if err := e.app.HoldKeeper.IterateAllHolds(e.ctx, func(ad sdk.AccAddress, c sdk.Coin) bool {
+		all[string(ad)] = all[string(ad)].Add(c)
+		return false
+	}); err != nil {
+		return "err:holdstore"
+	}
 	for _, n := range e.accts {
 		ad := e.addr[n]
 		bal := e.app.BankKeeper.GetAllBalances(e.ctx, ad)
-		h, err := e.app.HoldKeeper.GetHoldCoins(e.ctx, ad)
-		if err != nil {
+		ds := []string{e.bond, "apple", lockRDenom}
+		for _, c := range bal {
+			ds = append(ds, c.Denom)
+		}
+		views, h, ok := e.holdViews(ad, ds, all)
+		if !ok {
 			return "err:holdstore"
 		}
 		sp := e.app.BankKeeper.SpendableCoins(e.ctx, ad)
 		s := fmt.Sprintf("%s:b=%s;h=%s;s=%s", n, lockCoinsStr(bal), lockCoinsStr(h), lockCoinsStr(sp))
 		if v := e.vacc(e.ctx, n); v != nil {
 			s += fmt.Sprintf(";u=%s;dv=%s;df=%s", lockCoinsStr(v.LockedCoins(e.ctx.BlockTime())), lockCoinsStr(v.GetDelegatedVesting()), lockCoinsStr(v.GetDelegatedFree()))
+		}
+		if views[0] != views[1] || views[0] != views[2] || views[0] != views[3] {
+			// the lookups disagree: h= is the per-denom maximum, hv= lists listing/getter/point/all
+			s += ";hv=" + strings.Join(views[:], "/")
 		}
 		parts = append(parts, s)
 	}
@@ -324,6 +415,33 @@ func (e *lockEnv) run(f func(ctx sdk.Context) error) string {
 		return "panic:" + pan
 	}
 	return lockClass(err)
+}
+
+// runMsg runs an exchange message: every refusal is one class (the model does not tell the
+// exchange's many reasons apart; the verdicts only need accepted / refused).
+func (e *lockEnv) runMsg(f func(ctx sdk.Context) error) string {
+	r := e.run(f)
+	if strings.HasPrefix(r, "err:") {
+		return "err:rejected"
+	}
+	return r
+}
+
+func lockU64(s string) uint64 {
+	var x uint64
+	fmt.Sscan(s, &x)
+	return x
+}
+
+func lockIDs(s string) []uint64 {
+	var ids []uint64
+	if s == "-" || s == "" {
+		return ids
+	}
+	for _, p := range strings.Split(s, "|") {
+		ids = append(ids, lockU64(p))
+	}
+	return ids
 }
 
 // exec runs one op line against the real code and returns the canonical impl output.
@@ -340,6 +458,13 @@ func (e *lockEnv) exec(op string) string {
 		return "ok"
 	case "acct":
 		n, kind := ws[1], ws[2]
+		if hx := kvArg(ws, "addr"); hx != "" {
+			bz, err := hex.DecodeString(hx)
+			if err != nil || len(bz) == 0 || len(bz) > 255 || !lockIsUser(n) {
+				return "bad-op"
+			}
+			e.addr[n] = sdk.AccAddress(bz)
+		}
 		ad, ok := e.addr[n]
 		if !ok {
 			return "bad-op"
@@ -489,10 +614,110 @@ func (e *lockEnv) exec(op string) string {
 			_, err := e.exSrv.CommitFunds(ctx, msg)
 			return err
 		})
-	case "pay": // pay A coins id : MsgCreatePayment -> CreatePayment -> AddHold(source amount)
-		msg := &exchange.MsgCreatePaymentRequest{Payment: exchange.Payment{Source: e.addr[ws[1]].String(), SourceAmount: lockParseCoins(ws[2]), ExternalId: ws[3]}}
+	case "pay": // pay S coins id [tgt=T tamt=coins] : MsgCreatePayment -> CreatePayment -> AddHold(source amount)
+		pm := exchange.Payment{Source: e.addr[ws[1]].String(), SourceAmount: lockParseCoins(ws[2]), ExternalId: ws[3], TargetAmount: lockParseCoins(kvArg(ws, "tamt"))}
+		if t := kvArg(ws, "tgt"); t != "" {
+			pm.Target = e.addr[t].String()
+		}
+		msg := &exchange.MsgCreatePaymentRequest{Payment: pm}
 		return e.run(func(ctx sdk.Context) error {
 			_, err := e.exSrv.CreatePayment(ctx, msg)
+			return err
+		})
+	case "payaccept": // payaccept T S id r=.. : T accepts the stored payment (S, id) as it is stored
+		pm := exchange.Payment{Source: e.addr[ws[2]].String(), ExternalId: ws[3], SourceAmount: sdk.NewCoins(sdk.NewInt64Coin("apple", 1))}
+		if p, err := a.ExchangeKeeper.GetPayment(e.ctx, e.addr[ws[2]], ws[3]); err == nil && p != nil {
+			pm = *p
+		}
+		pm.Target = e.addr[ws[1]].String()
+		msg := &exchange.MsgAcceptPaymentRequest{Payment: pm}
+		return e.runMsg(func(ctx sdk.Context) error {
+			_, err := e.exSrv.AcceptPayment(e.withDirective(ctx, kvArg(ws, "r")), msg)
+			return err
+		})
+	case "payreject": // payreject T S id
+		msg := &exchange.MsgRejectPaymentRequest{Target: e.addr[ws[1]].String(), Source: e.addr[ws[2]].String(), ExternalId: ws[3]}
+		return e.runMsg(func(ctx sdk.Context) error {
+			_, err := e.exSrv.RejectPayment(ctx, msg)
+			return err
+		})
+	case "paycancel": // paycancel S id
+		msg := &exchange.MsgCancelPaymentsRequest{Source: e.addr[ws[1]].String(), ExternalIds: []string{ws[2]}}
+		return e.runMsg(func(ctx sdk.Context) error {
+			_, err := e.exSrv.CancelPayments(ctx, msg)
+			return err
+		})
+	case "ask", "bid": // ask|bid O assets price -> ok <order id>
+		as, pr := lockParseCoins(ws[2]), lockParseCoins(ws[3])
+		if len(as) != 1 || len(pr) != 1 {
+			return "bad-op"
+		}
+		var id uint64
+		r := e.runMsg(func(ctx sdk.Context) error {
+			if ws[0] == "ask" {
+				resp, err := e.exSrv.CreateAsk(ctx, &exchange.MsgCreateAskRequest{AskOrder: exchange.AskOrder{MarketId: 1, Seller: e.addr[ws[1]].String(), Assets: as[0], Price: pr[0]}})
+				if err == nil {
+					id = resp.OrderId
+				}
+				return err
+			}
+			resp, err := e.exSrv.CreateBid(ctx, &exchange.MsgCreateBidRequest{BidOrder: exchange.BidOrder{MarketId: 1, Buyer: e.addr[ws[1]].String(), Assets: as[0], Price: pr[0]}})
+			if err == nil {
+				id = resp.OrderId
+			}
+			return err
+		})
+		if r == "ok" {
+			return fmt.Sprintf("ok %d", id)
+		}
+		return r
+	case "ordcancel": // ordcancel S id
+		msg := &exchange.MsgCancelOrderRequest{Signer: e.addr[ws[1]].String(), OrderId: lockU64(ws[2])}
+		return e.runMsg(func(ctx sdk.Context) error {
+			_, err := e.exSrv.CancelOrder(ctx, msg)
+			return err
+		})
+	case "fillbids": // fillbids S total id|id r=..
+		msg := &exchange.MsgFillBidsRequest{Seller: e.addr[ws[1]].String(), MarketId: 1, TotalAssets: lockParseCoins(ws[2]), BidOrderIds: lockIDs(ws[3])}
+		return e.runMsg(func(ctx sdk.Context) error {
+			_, err := e.exSrv.FillBids(e.withDirective(ctx, kvArg(ws, "r")), msg)
+			return err
+		})
+	case "fillasks": // fillasks B totalprice id|id r=..
+		tp := lockParseCoins(ws[2])
+		if len(tp) != 1 {
+			return "bad-op"
+		}
+		msg := &exchange.MsgFillAsksRequest{Buyer: e.addr[ws[1]].String(), MarketId: 1, TotalPrice: tp[0], AskOrderIds: lockIDs(ws[3])}
+		return e.runMsg(func(ctx sdk.Context) error {
+			_, err := e.exSrv.FillAsks(e.withDirective(ctx, kvArg(ws, "r")), msg)
+			return err
+		})
+	case "settle": // settle askid bidid r=.. (MarketSettle by ADM, one ask and one bid)
+		msg := &exchange.MsgMarketSettleRequest{Admin: e.addr["ADM"].String(), MarketId: 1, AskOrderIds: []uint64{lockU64(ws[1])}, BidOrderIds: []uint64{lockU64(ws[2])}}
+		return e.runMsg(func(ctx sdk.Context) error {
+			_, err := e.exSrv.MarketSettle(e.withDirective(ctx, kvArg(ws, "r")), msg)
+			return err
+		})
+	case "crelease": // crelease A coins ("-" = everything committed)
+		msg := &exchange.MsgMarketReleaseCommitmentsRequest{Admin: e.addr["ADM"].String(), MarketId: 1,
+			ToRelease: []exchange.AccountAmount{{Account: e.addr[ws[1]].String(), Amount: lockParseCoins(ws[2])}}}
+		return e.runMsg(func(ctx sdk.Context) error {
+			_, err := e.exSrv.MarketReleaseCommitments(ctx, msg)
+			return err
+		})
+	case "csettle": // csettle A:c|B:c C:c r=.. (MarketCommitmentSettle by ADM, no fees)
+		msg := &exchange.MsgMarketCommitmentSettleRequest{Admin: e.addr["ADM"].String(), MarketId: 1}
+		names, coins := e.parseParts(ws[1])
+		for i, n := range names {
+			msg.Inputs = append(msg.Inputs, exchange.AccountAmount{Account: e.addr[n].String(), Amount: coins[i]})
+		}
+		names, coins = e.parseParts(ws[2])
+		for i, n := range names {
+			msg.Outputs = append(msg.Outputs, exchange.AccountAmount{Account: e.addr[n].String(), Amount: coins[i]})
+		}
+		return e.runMsg(func(ctx sdk.Context) error {
+			_, err := e.exSrv.MarketCommitmentSettle(e.withDirective(ctx, kvArg(ws, "r")), msg)
 			return err
 		})
 	case "release":
@@ -659,6 +884,155 @@ func (g *lockGen) restr(pct int, calls int, targets []string) string {
 	return " r=" + strings.Join(os, ",")
 }
 
+// lockGenAddrs picks the address of every user account of a history.  The dimension is the
+// byte pattern, not the value: last byte 0xff / 0x00, runs of 0xff or 0x00 at the end, all-0xff,
+// extreme first bytes, lengths from 1 to 255, and addresses related to an earlier one (a longer
+// address extending it, a prefix of it, its neighbours in byte order).
+func lockGenAddrs(e *lockEnv, rng *RNG, out *Out) map[string]string {
+	res := map[string]string{}
+	taken := map[string]bool{}
+	for n, a := range e.addr {
+		if !lockIsUser(n) {
+			taken[string(a)] = true
+		}
+	}
+	rnd := func(n int) []byte {
+		b := make([]byte, n)
+		for i := range b {
+			b[i] = byte(rng.U64())
+		}
+		return b
+	}
+	tail := func(b []byte, k int, v byte) {
+		for i := len(b) - k; i < len(b); i++ {
+			if i >= 0 {
+				b[i] = v
+			}
+		}
+	}
+	// x/quarantine keys a record by the first 32 bytes of a sender longer than that
+	// (keys.go createRecordSuffix): two such senders sharing them are ONE sender to that module
+	// (C07's subject, see known finding C07-double-release-long-address).  The histories here keep
+	// the users' record suffixes distinct.
+	suffix := func(b []byte) string {
+		if len(b) > 32 {
+			return string(b[:32])
+		}
+		return string(b)
+	}
+	var prev [][]byte
+	for _, n := range lockUserNames {
+		var bz []byte
+		tag := "default"
+		for try := 0; try < 8; try++ {
+			bz, tag = nil, "default"
+			switch k := rng.Intn(100); {
+			case k < 18:
+			case k < 32:
+				bz, tag = rnd(20), "20:last-ff"
+				bz[19] = 0xff
+			case k < 40:
+				bz, tag = rnd(20), "20:tail-ff"
+				tail(bz, 2+rng.Intn(18), 0xff)
+			case k < 44:
+				bz, tag = rnd(Pick(rng, []int{20, 32})), "all-ff"
+				tail(bz, len(bz), 0xff)
+			case k < 50:
+				bz, tag = rnd(20), "20:tail-00"
+				tail(bz, 1+rng.Intn(19), 0x00)
+			case k < 54:
+				bz, tag = rnd(20), "20:head"
+				bz[0] = Pick(rng, []byte{0x00, 0xff})
+			case k < 63:
+				bz, tag = rnd(32), "32"
+				if rng.Bool() {
+					tail(bz, 1+rng.Intn(4), 0xff)
+					tag = "32:tail-ff"
+				}
+			case k < 70:
+				bz, tag = rnd(21+rng.Intn(234)), "long"
+				if rng.Bool() {
+					bz[len(bz)-1] = 0xff
+					tag = "long:last-ff"
+				}
+			case k < 74:
+				bz, tag = rnd(255), "255"
+				if rng.Bool() {
+					tail(bz, 1+rng.Intn(255), 0xff)
+					tag = "255:tail-ff"
+				}
+			case k < 78:
+				bz, tag = rnd(1+rng.Intn(19)), "short"
+				if rng.Bool() {
+					bz[len(bz)-1] = 0xff
+					tag = "short:last-ff"
+				}
+			default:
+				if len(prev) == 0 {
+					continue
+				}
+				p := append([]byte{}, Pick(rng, prev)...)
+				switch rng.Intn(5) {
+				case 0:
+					bz, tag = append(p, rnd(1+rng.Intn(12))...), "rel:extends"
+				case 1:
+					ext := make([]byte, 1+rng.Intn(12))
+					tail(ext, len(ext), Pick(rng, []byte{0x00, 0xff}))
+					bz, tag = append(p, ext...), "rel:extends-00ff"
+				case 2:
+					p[len(p)-1]++
+					bz, tag = p, "rel:next"
+				case 3:
+					p[len(p)-1]--
+					bz, tag = p, "rel:prev"
+				default:
+					if len(p) < 2 {
+						continue
+					}
+					bz, tag = p[:1+rng.Intn(len(p)-1)], "rel:prefix"
+				}
+				if len(bz) > 255 {
+					bz = bz[:255]
+				}
+			}
+			if bz == nil || !(taken[string(bz)] || taken[suffix(bz)]) {
+				break
+			}
+			bz, tag = nil, "default"
+		}
+		out.Count("addr:" + tag)
+		if bz == nil {
+			prev = append(prev, lockAddr(n))
+			taken[string(lockAddr(n))] = true
+			continue
+		}
+		if bz[len(bz)-1] == 0xff {
+			out.Count("addr:ends-ff")
+		}
+		prev = append(prev, bz)
+		taken[string(bz)] = true
+		taken[suffix(bz)] = true
+		res[n] = " addr=" + hex.EncodeToString(bz)
+	}
+	return res
+}
+
+type lockPend struct{ s, id, t string }
+
+type lockOrd struct {
+	id            uint64
+	ask           bool
+	owner         string
+	assets, price sdk.Coin
+}
+
+func lockOrderID(r string) (uint64, bool) {
+	if !strings.HasPrefix(r, "ok ") {
+		return 0, false
+	}
+	return lockU64(r[3:]), true
+}
+
 func lockHistory(e *lockEnv, rng *RNG, out *Out, h int) {
 	g := &lockGen{e: e, rng: rng, out: out}
 	e.newHistory()
@@ -674,19 +1048,20 @@ func lockHistory(e *lockEnv, rng *RNG, out *Out, h int) {
 	g.emit("acct MKT market")
 	g.emit("acct QH base")
 	g.emit("acct ADM base")
-	g.emit("acct A base")
-	g.emit("acct B base")
-	g.emit("acct Q base quarantine=1")
+	ax := lockGenAddrs(e, rng, out)
+	g.emit("acct A base" + ax["A"])
+	g.emit("acct B base" + ax["B"])
+	g.emit("acct Q base quarantine=1" + ax["Q"])
 	// vesting accounts: delayed V (bond denom) and continuous C (bond + apple), schedules around now
 	vov := int64(100 + rng.Intn(900))
 	vend := t0 + int64(rng.Intn(4)*500) // may already be over (end == now)
-	g.emit(fmt.Sprintf("acct V delayed ov=%d%s end=%d", vov, bond, vend))
+	g.emit(fmt.Sprintf("acct V delayed ov=%d%s end=%d%s", vov, bond, vend, ax["V"]))
 	cov1, cov2 := int64(100+rng.Intn(900)), int64(50+rng.Intn(300))
 	cst := t0 - int64(rng.Intn(3)*400) + int64(rng.Intn(2)*300)
 	cen := cst + int64(1+rng.Intn(2000))
 	// "apple" < bond denom ("stake"/"nhash") alphabetically? keep ov sorted by building through sdk.NewCoins
 	cov := sdk.NewCoins(sdk.NewInt64Coin(bond, cov1), sdk.NewInt64Coin("apple", cov2))
-	g.emit(fmt.Sprintf("acct C cont ov=%s start=%d end=%d", lockCoinsStr(cov), cst, cen))
+	g.emit(fmt.Sprintf("acct C cont ov=%s start=%d end=%d%s", lockCoinsStr(cov), cst, cen, ax["C"]))
 	for _, n := range []string{"POOL", "GOV", "MK", "MKT", "QH", "ADM"} {
 		g.emit(fmt.Sprintf("have %s %s", n, lockCoinsStr(e.app.BankKeeper.GetAllBalances(e.ctx, e.addr[n]))))
 	}
@@ -695,6 +1070,9 @@ func lockHistory(e *lockEnv, rng *RNG, out *Out, h int) {
 	}
 	for _, n := range []string{"A", "B", "MK", "MKT", "QH"} {
 		g.emit("fund " + n + " " + fundCoins(100))
+	}
+	if rng.Chance(60) {
+		g.emit("fund Q " + fundCoins(100))
 	}
 	g.emit(fmt.Sprintf("fund V %s", lockCoinsStr(sdk.NewCoins(sdk.NewInt64Coin(bond, vov+int64(rng.Intn(400))), sdk.NewInt64Coin(lockRDenom, int64(10+rng.Intn(100)))))))
 	g.emit(fmt.Sprintf("fund C %s", lockCoinsStr(sdk.NewCoins(sdk.NewInt64Coin(bond, cov1+int64(rng.Intn(400))), sdk.NewInt64Coin("apple", cov2+int64(rng.Intn(200))), sdk.NewInt64Coin(lockRDenom, int64(10+rng.Intn(100)))))))
@@ -796,9 +1174,333 @@ func lockHistory(e *lockEnv, rng *RNG, out *Out, h int) {
 			qsenders = append(qsenders, f)
 		}
 	}
-	steps := 10 + rng.Intn(14)
+	// ---- exchange messages: holds on both parties, amounts at the payer's bal-hold boundary ----
+	exUsers := []string{"A", "B", "V", "C", "Q"}
+	otherThan := func(n string) string {
+		for {
+			if x := Pick(rng, exUsers); x != n {
+				return x
+			}
+		}
+	}
+	// spendAmt: an amount the account can put on hold itself (mostly within its spendable balance)
+	spendAmt := func(n, d string) sdkmath.Int {
+		sp := e.app.BankKeeper.SpendableCoins(e.ctx, e.addr[n]).AmountOf(d)
+		switch k := rng.Intn(20); {
+		case !sp.IsPositive():
+			return sdkmath.OneInt()
+		case k < 3:
+			return sp
+		case k < 5:
+			return sp.AddRaw(1)
+		default:
+			return sdkmath.NewInt(1 + int64(rng.U64()%uint64(minI64(sp.Int64(), 1<<40))))
+		}
+	}
+	split := func(tot sdkmath.Int, n int) []sdkmath.Int {
+		if n < 2 || tot.LT(sdkmath.NewInt(2)) {
+			return []sdkmath.Int{tot}
+		}
+		x := sdkmath.NewInt(1 + int64(rng.U64()%uint64(minI64(tot.Int64()-1, 1<<40))))
+		return []sdkmath.Int{x, tot.Sub(x)}
+	}
+	committed := func(n string) sdk.Coins { return e.app.ExchangeKeeper.GetCommitmentAmount(e.ctx, 1, e.addr[n]) }
+	var pend []lockPend
+	var open []lockOrd
+	payN := 0
+	dropOpen := func(ids ...uint64) {
+		var keep []lockOrd
+		for _, o := range open {
+			gone := false
+			for _, id := range ids {
+				gone = gone || o.id == id
+			}
+			if !gone {
+				keep = append(keep, o)
+			}
+		}
+		open = keep
+	}
+	mkOrder := func(ask bool, owner string, assets, price sdk.Coin) (lockOrd, bool) {
+		kind := "bid"
+		if ask {
+			kind = "ask"
+		}
+		r := g.emit(fmt.Sprintf("%s %s %s %s", kind, owner, assets, price))
+		g.emit("dump")
+		id, ok := lockOrderID(r)
+		o := lockOrd{id: id, ask: ask, owner: owner, assets: assets, price: price}
+		if ok {
+			open = append(open, o)
+		}
+		return o, ok
+	}
+	idsStr := func(os []lockOrd) string {
+		var ps []string
+		for _, o := range os {
+			ps = append(ps, fmt.Sprint(o.id))
+		}
+		return strings.Join(ps, "|")
+	}
+	fill := func(by string, os []lockOrd) {
+		var tot sdk.Coins
+		var ids []uint64
+		for _, o := range os {
+			if o.ask {
+				tot = tot.Add(o.price)
+			} else {
+				tot = tot.Add(o.assets)
+			}
+			ids = append(ids, o.id)
+		}
+		kind := "fillbids"
+		if os[0].ask {
+			kind = "fillasks"
+		}
+		if rng.Chance(4) { // malformed: the stated total is off by one
+			tot = tot.Add(sdk.NewCoin(tot[0].Denom, sdkmath.OneInt()))
+		}
+		if g.emit(fmt.Sprintf("%s %s %s %s%s", kind, by, lockCoinsStr(tot), idsStr(os), g.restr(8, 3, []string{"A", "B", "MKT"}))) == "ok" {
+			dropOpen(ids...)
+		}
+	}
+	exchangeStep := func(s int) {
+		switch k := rng.Intn(25); {
+		case k < 7: // a payment whose target pays at its bal-hold boundary; mostly accepted at once
+			t, d2 := pickSrc(exUsers, plain)
+			src := otherThan(t)
+			d1 := Pick(rng, plain)
+			payN++
+			id := fmt.Sprintf("x%d", payN)
+			sa, ta := fmt.Sprintf("%s%s", spendAmt(src, d1), d1), fmt.Sprintf("%s%s", g.amount(t, d2), d2)
+			switch v := rng.Intn(12); {
+			case v == 0:
+				sa = "-"
+			case v == 1:
+				ta = "-"
+			case v == 2 && d1 != d2: // two denoms on the target's side
+				ds := []string{d1, d2}
+				sort.Strings(ds)
+				ta = fmt.Sprintf("%s%s,%s%s", g.amount(t, ds[0]), ds[0], g.amount(t, ds[1]), ds[1])
+			}
+			op := fmt.Sprintf("pay %s %s %s tgt=%s", src, sa, id, t)
+			if ta != "-" {
+				op += " tamt=" + ta
+			}
+			r := g.emit(op)
+			g.emit("dump")
+			if r != "ok" {
+				return
+			}
+			if rng.Chance(70) {
+				if rng.Chance(25) { // the target gets (or loses) a hold in between
+					if rng.Bool() {
+						placeHold(t)
+					} else {
+						placeHold(src)
+					}
+				}
+				g.emit(fmt.Sprintf("payaccept %s %s %s%s", t, src, id, g.restr(8, 2, []string{"A", "B", "MKT"})))
+			} else {
+				pend = append(pend, lockPend{src, id, t})
+			}
+		case k < 10: // accept / reject / cancel a pending payment
+			if len(pend) == 0 {
+				src := Pick(rng, exUsers)
+				payN++
+				d := Pick(rng, plain)
+				id := fmt.Sprintf("x%d", payN)
+				t := otherThan(src)
+				if g.emit(fmt.Sprintf("pay %s %s%s %s tgt=%s tamt=%s%s", src, spendAmt(src, d), d, id, t, g.amount(t, d), d)) == "ok" {
+					pend = append(pend, lockPend{src, id, t})
+				}
+				break
+			}
+			i := rng.Intn(len(pend))
+			p := pend[i]
+			who := p.t
+			if rng.Chance(6) {
+				who = otherThan(p.t)
+			}
+			var r string
+			switch v := rng.Intn(10); {
+			case v < 6:
+				r = g.emit(fmt.Sprintf("payaccept %s %s %s%s", who, p.s, p.id, g.restr(8, 2, []string{"A", "B", "MKT"})))
+			case v < 8:
+				r = g.emit(fmt.Sprintf("payreject %s %s %s", who, p.s, p.id))
+			default:
+				r = g.emit(fmt.Sprintf("paycancel %s %s", p.s, p.id))
+			}
+			if r == "ok" {
+				pend = append(pend[:i], pend[i+1:]...)
+			}
+		case k < 16: // orders that meet: the filling / settling side pays at its boundary
+			d1, d2 := "apple", bond
+			if rng.Chance(35) {
+				d1, d2 = d2, d1
+			}
+			switch mode := rng.Intn(3); mode {
+			case 0: // bids, then the seller y delivers the assets (FillBids)
+				y, _ := pickSrc(exUsers, []string{d1})
+				var os []lockOrd
+				for _, x := range split(g.amount(y, d1), 1+rng.Intn(2)) {
+					b := otherThan(y)
+					if o, ok := mkOrder(false, b, sdk.NewCoin(d1, x), sdk.NewCoin(d2, spendAmt(b, d2))); ok {
+						os = append(os, o)
+					}
+				}
+				if len(os) > 0 && rng.Chance(80) {
+					fill(y, os)
+				}
+			case 1: // asks, then the buyer y pays the price (FillAsks)
+				y, _ := pickSrc(exUsers, []string{d2})
+				var os []lockOrd
+				for _, x := range split(g.amount(y, d2), 1+rng.Intn(2)) {
+					sl := otherThan(y)
+					if o, ok := mkOrder(true, sl, sdk.NewCoin(d1, spendAmt(sl, d1)), sdk.NewCoin(d2, x)); ok {
+						os = append(os, o)
+					}
+				}
+				if len(os) > 0 && rng.Chance(80) {
+					fill(y, os)
+				}
+			default: // one ask, one bid of equal assets, settled by the market
+				x := Pick(rng, exUsers)
+				y := otherThan(x)
+				assets := sdk.NewCoin(d1, spendAmt(x, d1))
+				bp := spendAmt(y, d2)
+				ap := bp.SubRaw(int64(rng.Intn(3)))
+				if rng.Chance(8) {
+					ap = bp.AddRaw(1)
+				}
+				if !ap.IsPositive() {
+					ap = sdkmath.OneInt()
+				}
+				ao, ok1 := mkOrder(true, x, assets, sdk.NewCoin(d2, ap))
+				bo, ok2 := mkOrder(false, y, assets, sdk.NewCoin(d2, bp))
+				if ok1 && ok2 && rng.Chance(85) {
+					if rng.Chance(30) {
+						placeHold(Pick(rng, []string{x, y}))
+					}
+					if g.emit(fmt.Sprintf("settle %d %d%s", ao.id, bo.id, g.restr(8, 2, []string{"A", "B", "MKT"}))) == "ok" {
+						dropOpen(ao.id, bo.id)
+					}
+				}
+			}
+		case k < 19: // an open order gets filled by someone else, or cancelled
+			if len(open) == 0 {
+				x := Pick(rng, exUsers)
+				d1, d2 := "apple", bond
+				if rng.Bool() {
+					d1, d2 = d2, d1
+				}
+				mkOrder(rng.Bool(), x, sdk.NewCoin(d1, spendAmt(x, d1)), sdk.NewCoin(d2, spendAmt(x, d2)))
+				break
+			}
+			o := Pick(rng, open)
+			switch v := rng.Intn(10); {
+			case v < 6:
+				fill(otherThan(o.owner), []lockOrd{o})
+			default:
+				signer := o.owner
+				if rng.Chance(30) {
+					signer = Pick(rng, []string{"ADM", otherThan(o.owner)})
+				}
+				if g.emit(fmt.Sprintf("ordcancel %s %d", signer, o.id)) == "ok" {
+					dropOpen(o.id)
+				}
+			}
+		case k < 22: // commitments: commit, release
+			var with []string
+			for _, n := range exUsers {
+				if !committed(n).IsZero() {
+					with = append(with, n)
+				}
+			}
+			if len(with) == 0 || rng.Chance(35) {
+				f := Pick(rng, exUsers)
+				d := Pick(rng, plain)
+				g.emit(fmt.Sprintf("commit %s %s%s", f, spendAmt(f, d), d))
+				break
+			}
+			n := Pick(rng, with)
+			cm := committed(n)
+			c := Pick(rng, cm)
+			switch v := rng.Intn(10); {
+			case v < 4:
+				g.emit(fmt.Sprintf("crelease %s -", n))
+			case v < 7:
+				g.emit(fmt.Sprintf("crelease %s %s%s", n, sdkmath.NewInt(1+int64(rng.U64()%uint64(minI64(c.Amount.Int64(), 1<<40)))), c.Denom))
+			case v < 8:
+				g.emit(fmt.Sprintf("crelease %s %s", n, lockCoinsStr(cm)))
+			default:
+				g.emit(fmt.Sprintf("crelease %s %s%s", n, c.Amount.AddRaw(1), c.Denom))
+			}
+		default: // committed funds change hands (MarketCommitmentSettle) and are re-committed
+			var with []string
+			for _, n := range exUsers {
+				if !committed(n).IsZero() {
+					with = append(with, n)
+				}
+			}
+			if len(with) == 0 {
+				f := Pick(rng, exUsers)
+				d := Pick(rng, plain)
+				g.emit(fmt.Sprintf("commit %s %s%s", f, spendAmt(f, d), d))
+				break
+			}
+			part := func(n string) sdk.Coin {
+				c := Pick(rng, committed(n))
+				switch v := rng.Intn(10); {
+				case v < 4:
+					return c
+				case v < 9:
+					return sdk.NewCoin(c.Denom, sdkmath.NewInt(1+int64(rng.U64()%uint64(minI64(c.Amount.Int64(), 1<<40)))))
+				default:
+					return sdk.NewCoin(c.Denom, c.Amount.AddRaw(1))
+				}
+			}
+			in1 := Pick(rng, with)
+			c1 := part(in1)
+			ins := []string{fmt.Sprintf("%s:%s", in1, c1)}
+			tot := sdk.NewCoins(c1)
+			if len(with) > 1 && rng.Chance(35) {
+				in2 := in1
+				for in2 == in1 {
+					in2 = Pick(rng, with)
+				}
+				c2 := part(in2)
+				ins = append(ins, fmt.Sprintf("%s:%s", in2, c2))
+				tot = tot.Add(c2)
+			}
+			var outs []string
+			if len(ins) == 1 && rng.Chance(35) && c1.Amount.GT(sdkmath.OneInt()) {
+				xs := split(c1.Amount, 2)
+				o1 := otherThan(in1)
+				outs = []string{fmt.Sprintf("%s:%s%s", o1, xs[0], c1.Denom), fmt.Sprintf("%s:%s%s", otherThan(o1), xs[1], c1.Denom)}
+			} else {
+				to := Pick(rng, exUsers)
+				if rng.Chance(6) { // malformed: totals differ
+					tot = tot.Add(sdk.NewCoin(tot[0].Denom, sdkmath.OneInt()))
+				}
+				outs = []string{fmt.Sprintf("%s:%s", to, lockCoinsStr(tot))}
+			}
+			g.emit(fmt.Sprintf("csettle %s %s%s", strings.Join(ins, "|"), strings.Join(outs, "|"), g.restr(8, 2, []string{"A", "B", "MKT"})))
+		}
+	}
+	if rng.Chance(35) { // some funds are already committed to the market
+		for i := 0; i < 1+rng.Intn(2); i++ {
+			f := Pick(rng, exUsers)
+			d := Pick(rng, plain)
+			g.emit(fmt.Sprintf("commit %s %s%s", f, spendAmt(f, d), d))
+			g.emit("dump")
+		}
+	}
+	steps := 11 + rng.Intn(15)
 	for s := 0; s < steps; s++ {
-		switch k := rng.Intn(100); {
+		switch k := rng.Intn(127); {
+		case k >= 100:
+			exchangeStep(s)
 		case k < 16: // bank MsgSend
 			f, d := pickSrc(users, plain)
 			to := Pick(rng, []string{"A", "B", "V", "C", "MKT", "Q", "Q", "Q", "POOL"})
